@@ -17,6 +17,7 @@ import (
 	"time"
 
 	"com.tuntun.rangers/node/src/zzverif/simrt"
+	"com.tuntun.rangers/node/src/zzverif/simsched"
 )
 
 // Harness is one property's simulation: plan generator, executor with oracles, shrinker.
@@ -193,6 +194,14 @@ func safeExec(h Harness, plan json.RawMessage, st *simrt.Stats, log *simrt.Log) 
 		simrt.SimSpanHook() // start of this plan's span
 		defer func() { st.SimTimeMs += simrt.SimSpanHook() }()
 	}
+	simsched.TakeEscaped()
+	defer func() {
+		for site, n := range simsched.TakeEscaped() {
+			for i := 0; i < n; i++ {
+				st.Probe("escaped_go:" + site)
+			}
+		}
+	}()
 	return h.Exec(plan, st, log)
 }
 
